@@ -1185,9 +1185,30 @@ impl<'a> Iterator for FindNoCaseTextIter<'a> {
                     let beginbytepos = resource
                         .subslice_utf8_offset(text)
                         .expect("bytepos must be valid");
-                    let text = text.to_lowercase();
+                    // lowercasing may change the byte length of a character (and even the number of characters), so we
+                    // keep track of where each original character ends up in the lowercased text
+                    let mut lowered = String::with_capacity(text.len());
+                    let mut charmap: Vec<(usize, usize)> = Vec::new(); //(byte offset in lowered text, byte offset in original text) per character
+                    for (bytepos, c) in text.char_indices() {
+                        charmap.push((lowered.len(), bytepos));
+                        lowered.extend(c.to_lowercase());
+                    }
+                    charmap.push((lowered.len(), text.len()));
+                    let text = lowered;
                     if let Some(foundbytepos) = text.find(self.fragment.as_str()) {
-                        let endbytepos = foundbytepos + self.fragment.len(); //MAYBE TODO: possible issue if uppercase and lowercase variants have different byte length!
+                        let endbytepos = foundbytepos + self.fragment.len();
+                        //map back to the original text: begin at the character containing the first matched byte, end after the character containing the last one
+                        let foundbytepos = charmap
+                            .iter()
+                            .rev()
+                            .find(|(lowpos, _)| *lowpos <= foundbytepos)
+                            .map(|(_, origpos)| *origpos)
+                            .expect("character must be found");
+                        let endbytepos = charmap
+                            .iter()
+                            .find(|(lowpos, _)| *lowpos >= endbytepos)
+                            .map(|(_, origpos)| *origpos)
+                            .expect("character must be found");
                         let newbegin = resource
                             .utf8byte_to_charpos(beginbytepos + foundbytepos)
                             .expect("utf-8 byte must resolve to valid charpos");
